@@ -253,10 +253,11 @@ def run(ctx):
            "the reception manager registers as DENM data provider", init.loc)
     ctx.ob("C17.feed", init.short(), "port", "register_indication_callback_btp(port=2002,callback=self.reception_callback)" in src, "listens on BTP port 2002", init.loc)
     # ---------------------------------------------------------------- schema (DENM part of the C11 engine)
+    # only the elements this property speaks about: identity, reference time, event position (the rest of the DENM is C11's)
     M = MU.Messages(ctx)
-    MU.check_template(ctx, M, "DENM", "C17.schema", "C17.schema")
-    MU.check_stores(ctx, M, "DENM", "C17.schema", "C17.schema")
+    mine = ("actionId", "stationId", "originatingStationId", "sequenceNumber", "eventPosition", "referenceTime", "detectionTime")
+    MU.check_stores(ctx, M, "DENM", "C17.schema", "C17.schema", only=lambda s: any(k in mine for k in s.path))
     MU.check_reads(ctx, M, "DENM", "C17.schema", [(f"{RX}.feed_ldm", "denm"), (f"{RX}.reception_callback", "denm")])
-    ctx.floor("C17.schema", 40)
+    ctx.floor("C17.schema", 10)
     ctx.floor("C17.area", 9)
     ctx.floor("C17.count", 6)
